@@ -710,6 +710,8 @@ class Interp:
         if self.dpos < len(self.decisions):
             d = self.decisions[self.dpos]
             self.dpos += 1
+            if d >= n:
+                raise Infeasible()      # a forced prefix that does not exist at this decision point
             return d
         for k in range(n - 1, 0, -1):
             self.pending.append(self.decisions[:self.dpos] + [k])
@@ -764,6 +766,10 @@ class Interp:
                     fs = v.fields
                 elif isinstance(v, Agg):
                     fs = v.fields
+                elif isinstance(v, Opaque):
+                    # a part of the state the scenario declared not observable: its sub-places are opaque too
+                    cell = Cell(Opaque(v.tag + '.%d' % pr[1]))
+                    continue
                 else:
                     raise Unsupported('field of %r' % (v,))
                 i = pr[1]
@@ -892,6 +898,15 @@ class Interp:
         m = re.match(r'^(?:std::option::)?Option::<.*>::None$', name)
         if m:
             return none()
+        m = re.match(r'^([\w:<>, ]+?)\((.*)\)$', name)
+        if m:
+            # a constant of a tuple struct / tuple variant, e.g. `FetchBlocksGuard(())`
+            ent = self.adt_resolve(m.group(1))
+            inner = [self.const(mir.parse_const(x)) for x in split_top(m.group(2))]
+            if ent[0] == 'struct':
+                return Agg(ent[1].name, [Cell(v) for v in inner])
+            if ent[0] == 'variant':
+                return Agg(ent[1].name, [Cell(v) for v in inner], ent[2][3])
         f = CONST_MODELS.get(sn) or CONST_MODELS.get('::'.join(sn.split('::')[-2:]))
         if f:
             return f(self)
@@ -1440,11 +1455,11 @@ class Stats:
                     infeasible=self.infeasible, solver_s=round(self.solver_s, 2))
 
 
-def explore(prog, scenario, mode='dev', stats=None, max_paths=None, setup=None, on_panic=None):
+def explore(prog, scenario, mode='dev', stats=None, max_paths=None, setup=None, on_panic=None, prefixes=None):
     """Run `scenario(it)` once per feasible path.  `scenario` builds its inputs, calls into MIR via `it`,
     and performs its own property queries; it returns a value collected in the result list."""
     stats = stats or Stats()
-    work = [[]]
+    work = [list(p) for p in prefixes] if prefixes else [[]]
     results = []
     while work:
         dec = work.pop()
